@@ -534,6 +534,23 @@ def build_cells(seed, tier, pool):
     def nested_parens(depth):
         return ("Zz1 = %s'x'%s;\n" % ("(" * depth, ")" * depth)).encode()
 
+    char_boundaries = [
+        ("char_rule_xml_char_class", "@char\nZz1 = '\\t' | '\\n' | '\\r' | ' '..'\\uD7FF' | '\\uE000'..'\\uFFFD' | '\\U00010000'..'\\U0010FFFF';\n"),
+        ("char_rule_ends_before_surrogates", "@char\nZz1 = 'a'..'\\u{D7FF}' | '\\u{E000}';\n"),
+        ("char_rule_max_code_point", "@char\nZz1 = '\\u{10FFFF}' | '\\u{10FFFE}'..'\\u{10FFFF}' | '\\x00';\n"),
+        ("char_rule_adjacent_and_overlapping", "@char\nZz1 = 'a'..'f' | 'g'..'k' | 'c'..'h' | 'k' | 'l' | 'a';\n"),
+        ("char_rule_unsorted_parts", "@char\nZz1 = 'z' | 'a' | '\\u{E000}' | '\\u{D7FF}' | 'm'..'n';\n"),
+        ("char_rule_reversed_range", "@char\nZz1 = 'z'..'a' | 'q';\n"),
+        ("char_rule_refers_to_char_rule", "@char\nZz1 = Zz2 | '\\u{D7FF}' | 'x';\n@char\nZz2 = '\\u{E000}'..'\\u{E001}';\n"),
+        ("range_ends_before_surrogates", "Zz1 = 'a'..'\\u{D7FF}' '\\u{E000}'..'\\u{10FFFF}';\n"),
+        ("literal_boundary_code_points", "Zz1 = '\\u{D7FF}\\u{E000}\\u{10FFFF}\\x00\\x7f\\x80\\xff';\n"),
+        ("empty_constructs", "Zz1 = () [] {} ( | ) 'a' | | 'b';\n"),
+        ("rule_with_only_lookaheads", "Zz1 = !'a' &'b' !$;\n"),
+        ("empty_rule_and_empty_grammar_tail", "Zz1 = ;\nZz2 = Zz1 Zz1;\n\n\n"),
+    ]
+    for fid, text in char_boundaries:
+        for r in ROUTES + CLI_PARSE_ONLY_ROUTES:
+            cells.append(Cell(fid, r, "ok", "control", text.encode()))
     for r in ROUTES + CLI_PARSE_ONLY_ROUTES:
         cells.append(Cell("nested_choice_groups_10", r, "ok", "control", nested_groups(10)))
         cells.append(Cell("nested_parentheses_100", r, "ok", "control", nested_parens(100)))
